@@ -1325,12 +1325,41 @@ Print Assumptions loopir_levdown_chk.
 Print Assumptions loopir_levdown_tie.
 """
 
+# ---------------------------------------------------------------- HERMTOEP: translation + theorem
+HERM_PROOF = 'Proofs/LoopIRHermtoep.v'
+HERM_THEOREMS = ['loopir_HERMTOEP_model', 'loopir_HERMTOEP_tie']
+HERM_BLOCK = """
+(* The program regenerated on this run is, term for term, the one Proofs/LoopIRHermtoep.v is about: its theorems apply. *)
+Require Import Spectrum.Theory.Ops Spectrum.Theory.Vec Spectrum.Model.Levinson Spectrum.Model.LoopIRTie Spectrum.Proofs.LoopIRHermtoep.
+Lemma prog_HERMTOEP_is_ref : prog_HERMTOEP = prog_HERMTOEP_ref.
+Proof. reflexivity. Qed.
+Theorem loopir_HERMTOEP_model :
+  forall (F : Type) (OF : Ops F) (L : Laws OF) (feq : F -> F -> bool) (stop : Z -> F -> F -> bool)
+         (t0 : F) (tT : bool) (T : list F) (tZ : bool) (Zr : list F),
+  (T = [] \\/ feq t0 0%F = true \\/ (length T + 1 <= length Zr)%nat) ->
+  run feq stop prog_HERMTOEP [Some (VF t0); Some (VArr tT T); Some (VArr tZ Zr)] =
+  if Nat.eqb (length T) 0 then OErr AssertionError
+  else if feq t0 0%F then OErr ValueError
+  else match hermtoep t0 T Zr with
+       | Some X => ORet [VArr false X]
+       | None => OErr ValueError
+       end.
+Proof. intros. rewrite prog_HERMTOEP_is_ref. apply hermtoep_ir_run; assumption. Qed.
+Theorem loopir_HERMTOEP_tie :
+  forall (F : Type) (OF : Ops F) (L : Laws OF) (feq : F -> F -> bool), (forall a, feq a a = true) ->
+  forall (t0 : F) (T Zr : list F), (length T + 1 <= length Zr)%nat -> tie_hermtoep feq prog_HERMTOEP t0 T Zr = true.
+Proof. intros. rewrite prog_HERMTOEP_is_ref. apply hermtoep_ir_tie; assumption. Qed.
+Print Assumptions loopir_HERMTOEP_model.
+Print Assumptions loopir_HERMTOEP_tie.
+"""
+
 # routine -> the proof file its reference program text lives in, the theorems the generated file instantiates, the block that does it
 THEOREMS = {
     'LEVINSON': dict(proof=LEV_PROOF, theorems=LEV_THEOREMS, block=LEV_BLOCK),
     'CORRELATION': dict(proof=COR_PROOF, theorems=COR_THEOREMS, block=COR_BLOCK),
     'levup': dict(proof=LEVUP_PROOF, theorems=LEVUP_THEOREMS, block=LEVUP_BLOCK),
     'levdown': dict(proof=LEVDOWN_PROOF, theorems=LEVDOWN_THEOREMS, block=LEVDOWN_BLOCK),
+    'HERMTOEP': dict(proof=HERM_PROOF, theorems=HERM_THEOREMS, block=HERM_BLOCK),
 }
 
 
